@@ -305,10 +305,34 @@ Proof.
     rewrite F in F''. inversion F''; subst o''. rewrite S in Ib. eapply CL; eauto.
 Qed.
 
+Lemma open_fileno_inv : forall i st, hist_inv st -> hist_inv (open_fileno i st).
+Proof.
+  intros i st I. pose proof I as [OC [ND [LT [CO [CL SL]]]]]. unfold open_fileno.
+    destruct (alloc st (mkObj [] false [] [] false (KFileno true false (nextfd st) 0))) as [st1 p] eqn:A.
+    assert (I1 : hist_inv st1).
+    { replace st1 with (fst (alloc st (mkObj [] false [] [] false (KFileno true false (nextfd st) 0)))) by (rewrite A; auto).
+      apply alloc_inv_simple; auto.
+      - intros x [].
+      - intros. unfold open_port_on. rewrite PM.gss. reflexivity.
+      - intros hb nc fd c F. unfold fileno_of in F. rewrite PM.gss in F. simpl in F. inversion F; lia. }
+    assert (I2 : hist_inv (with_slot st1 i (Ptr p))).
+    { apply with_slot_inv; [exact I1|]. intros x E. inversion E; subst. unfold alloc in A. inversion A; subst. simpl. lia. }
+    exact I2.
+Qed.
+
+Lemma fileno_state_true : forall st i, fileno_state st i = Some true ->
+  exists f fo fd c, slot st i = Ptr f /\ PM.find f (objs (hp st)) = Some fo /\ kind fo = KFileno true false fd c.
+Proof.
+  intros st i H. unfold fileno_state in H. destruct (slot st i) as [|f]; [discriminate|].
+  destruct (PM.find f (objs (hp st))) as [fo|] eqn:F; [|discriminate].
+  destruct (kind fo) as [| |op nc fd c] eqn:K; try discriminate. destruct op; [|discriminate]. destruct nc; [discriminate|].
+  exists f, fo, fd, c. auto.
+Qed.
+
 Theorem step_inv : forall o st st', hist_inv st -> step o st = Some st' -> hist_inv st'.
 Proof.
   intros o st st' I H. pose proof I as [OC [ND [LT [CO [CL SL]]]]].
-  destruct o as [i|i a b|i k v|i| |i|i|i f|i]; unfold step in H; cbv beta iota in H.
+  destruct o as [i|i a b|i k v|i| |i|i|i f|i|i|i f|a b]; unfold step in H; cbv beta iota in H.
   - (* OKey *)
     destruct (alloc st (mkObj [] false [] [] false KPlain)) as [st1 a] eqn:A. inversion H; subst st'.
     assert (I1 : hist_inv st1).
@@ -356,17 +380,7 @@ Proof.
     { apply with_slot_inv; [exact I1|]. intros x E. inversion E; subst. unfold alloc in A. inversion A; subst. simpl. lia. }
     exact I2.
   - (* OFileno *)
-    destruct (alloc st (mkObj [] false [] [] false (KFileno true false (nextfd st) 0))) as [st1 p] eqn:A.
-    inversion H; subst st'.
-    assert (I1 : hist_inv st1).
-    { replace st1 with (fst (alloc st (mkObj [] false [] [] false (KFileno true false (nextfd st) 0)))) by (rewrite A; auto).
-      apply alloc_inv_simple; auto.
-      - intros x [].
-      - intros. unfold open_port_on. rewrite PM.gss. reflexivity.
-      - intros hb nc fd c F. unfold fileno_of in F. rewrite PM.gss in F. simpl in F. inversion F; lia. }
-    assert (I2 : hist_inv (with_slot st1 i (Ptr p))).
-    { apply with_slot_inv; [exact I1|]. intros x E. inversion E; subst. unfold alloc in A. inversion A; subst. simpl. lia. }
-    exact I2.
+    inversion H; subst st'. apply open_fileno_inv; exact I.
   - (* OPortOn *)
     destruct (slot st f) as [|fa] eqn:SF; [inversion H; subst; auto|].
     destruct (PM.find fa (objs (hp st))) as [fo|] eqn:Ffa; [|inversion H; subst; auto].
@@ -424,6 +438,20 @@ Proof.
     unfold hist_inv; simpl. repeat split; auto.
     + intros a Ia. apply OC. apply (same_shape_isobj _ _ a SS); auto.
     + intros a o' b F Ib. destruct (same_shape_strong _ _ _ _ SS F) as [o0 [F0 S0]]. rewrite <- S0 in Ib. eapply CL; eauto.
+  - (* OCloseFd *)
+    destruct (fileno_state st i) as [[|]|] eqn:FS; [|discriminate|inversion H; subst; auto].
+    destruct (fileno_state_true _ _ FS) as [f [fo [fd [c [SF [Ff Kf]]]]]]. rewrite SF in H.
+    destruct (finalize_fileno (objs (hp st)) (oslog st) f) as [h1 log1] eqn:FF. inversion H; subst st'. clear H.
+    pose proof (finalize_fileno_shape (objs (hp st)) (oslog st) f) as SS. rewrite FF in SS. simpl in SS.
+    pose proof (finalize_fileno_count_ok (objs (hp st)) (oslog st) f (order (hp st)) CO) as C1. rewrite FF in C1. simpl in C1.
+    unfold hist_inv; simpl. repeat split; auto.
+    + intros a Ia. apply OC. apply (same_shape_isobj _ _ a SS); auto.
+    + intros a o' b F Ib. destruct (same_shape_strong _ _ _ _ SS F) as [o0 [F0 S0]]. rewrite <- S0 in Ib. eapply CL; eauto.
+  - (* ODup *)
+    destruct (fileno_state st f) as [[|]|]; [|discriminate|inversion H; subst; auto].
+    inversion H; subst st'. apply open_fileno_inv; exact I.
+  - (* ODupTo *)
+    destruct (fileno_state st a) as [[|]|]; destruct (fileno_state st b) as [[|]|]; try discriminate; inversion H; subst; auto.
 Qed.
 
 Lemma init_inv : forall n fuel, hist_inv (init n fuel).
